@@ -179,10 +179,14 @@ QSpec == QInit /\ [][QNext]_vars
 \* what the statement describes.
 WellDefined ==
     ph = "ask" =>
-      \A hi \in HostSel, tls \in BOOLEAN, q \in 1..Len(ReqPathU), k \in 1..Len(ComboU) :
-        LET nt == NT(tbl, tls) nq == NReqU[tls][hi][q] m == ComboU[k][1] g == ComboU[k][2]
-            kt == KT(tbl, tls, hi, g) IN
-        WellPosedK(nt, kt, m) => BestUniqueK(kt, nq, m) /\ BestSoundK(kt, nq, m)
+      \A tls \in BOOLEAN :
+        LET nt == NT(tbl, tls)
+            wp == [m \in Matchers |-> WellPosedN(nt, m)] IN
+        \A hi \in HostSel, g \in BOOLEAN :
+          LET kt == KT(tbl, tls, hi, g)
+              wa == WildAmbiguousK(kt) IN
+          \A q \in 1..Len(ReqPathU), m \in Matchers :
+            (wp[m] /\ ~wa) => BestUniqueK(kt, NReqU[tls][hi][q], m) /\ BestSoundK(kt, NReqU[tls][hi][q], m)
 \* the constant tables agree with the definitions on un-normalised data (checked on each table)
 TablesAgree ==
     ph = "ask" =>
